@@ -747,6 +747,7 @@ func (r *runner) checkState(out *Outcome) {
 	if !r.desync && !r.serverCheck(kind) {
 		return
 	}
+	r.checkInvariants()
 	if r.desync {
 		// only what does not need the model: registry beliefs, views against the server's own state
 		r.checkBeliefs()
@@ -790,25 +791,49 @@ func (r *runner) checkState(out *Outcome) {
 func poseArr(a ...float32) Pose { var p Pose; copy(p[:], a); return p }
 
 func diffMaps[K comparable, V comparable](got, want map[K]V) string {
-	var out []string
+	d, _ := diffMapsK(got, want)
+	return d
+}
+
+// diffMapsK also returns the keys that differ (formatted with %v, sorted).
+func diffMapsK[K comparable, V comparable](got, want map[K]V) (string, []string) {
+	var out, keys []string
 	for k, v := range want {
 		g, ok := got[k]
 		if !ok {
 			out = append(out, fmt.Sprintf("missing %v=%v", k, v))
+			keys = append(keys, fmt.Sprint(k))
 		} else if g != v {
 			out = append(out, fmt.Sprintf("%v is %v, expected %v", k, g, v))
+			keys = append(keys, fmt.Sprint(k))
 		}
 	}
 	for k, v := range got {
 		if _, ok := want[k]; !ok {
 			out = append(out, fmt.Sprintf("unexpected %v=%v", k, v))
+			keys = append(keys, fmt.Sprint(k))
 		}
 	}
+	sort.Strings(keys)
+	d := joinDiff(out)
+	return d, keys
+}
+
+func joinDiff(out []string) string {
 	sort.Strings(out)
 	if len(out) > 6 {
 		out = append(out[:6], fmt.Sprintf("... %d more", len(out)-6))
 	}
 	return strings.Join(out, "; ")
+}
+
+// vk records a violation together with the state entries it is about.
+func (r *runner) vk(keys []string, prefix, prop, rule, format string, a ...any) {
+	ks := make([]string, len(keys))
+	for i, k := range keys {
+		ks[i] = prefix + k
+	}
+	r.violate(Violation{Prop: prop, Rule: rule, Detail: fmt.Sprintf(format, a...), Keys: ks})
 }
 
 // serverSnapshot reads every live session through the repository's accessors.
@@ -884,6 +909,61 @@ func (r *runner) serverSnapshotOpt(keepDangling bool) map[string]*MSession {
 		}
 	})
 	return snap
+}
+
+// checkInvariants: what must hold of the server's own state at every quiescent point whatever
+// the order in which concurrent requests were applied (no model involved): every component,
+// action and asset instance belongs to an entity of its session, and every entity that is not
+// persistent is owned by a member.
+func (r *runner) checkInvariants() {
+	snap := r.serverSnapshotOpt(true)
+	var uu []string
+	for u := range snap {
+		uu = append(uu, u)
+	}
+	sort.Strings(uu)
+	for _, u := range uu {
+		s := snap[u]
+		for _, k := range sortedCKeys(s.Components) {
+			if s.Entities[k.Entity] == nil {
+				d := fmt.Sprintf("session %s keeps component (type %d, entity %d) although entity %d does not exist", s.ID, k.Type, k.Entity, k.Entity)
+				r.v("C09", "state-invariant", "%s", d)
+				r.v("C12", "cascade-missing", "%s", d)
+			}
+		}
+		var ae []uint32
+		for e := range s.Actions {
+			ae = append(ae, e)
+		}
+		sort.Slice(ae, func(i, j int) bool { return ae[i] < ae[j] })
+		for _, e := range ae {
+			if s.Entities[e] == nil {
+				d := fmt.Sprintf("session %s keeps %d action(s) of entity %d, which does not exist", s.ID, len(s.Actions[e]), e)
+				r.v("C09", "state-invariant", "%s", d)
+				r.v("C16", "attached-to-missing-entity", "%s", d)
+			}
+		}
+		ae = ae[:0]
+		for e := range s.Assets {
+			ae = append(ae, e)
+		}
+		sort.Slice(ae, func(i, j int) bool { return ae[i] < ae[j] })
+		for _, e := range ae {
+			if s.Entities[e] == nil {
+				d := fmt.Sprintf("session %s keeps asset instance %d of entity %d, which does not exist", s.ID, s.Assets[e].ID, e)
+				r.v("C09", "state-invariant", "%s", d)
+				r.v("C16", "attached-to-missing-entity", "%s", d)
+			}
+		}
+		for _, id := range sortedKeysE(s.Entities) {
+			e := s.Entities[id]
+			if _, member := s.Members[e.Owner]; !member && !e.Persist {
+				d := fmt.Sprintf("session %s keeps non-persistent entity %d of participant %d, who is not a member", s.ID, id, e.Owner)
+				r.v("C09", "state-invariant", "%s", d)
+				r.v("C06", "entity-survived", "%s", d)
+			}
+		}
+	}
 }
 
 func (r *runner) checkViews() {
@@ -967,9 +1047,9 @@ func (r *runner) checkViews() {
 					wc[k] = d
 				}
 			}
-			if d := diffMaps(gc, wc); d != "" {
-				r.v("C01", "view-components", "%s's view of type %d: %s", c.Label, typ, d)
-				r.v("C13", "notify-missing", "%s's view of type %d: %s", c.Label, typ, d)
+			if d, ks := diffMapsK(gc, wc); d != "" {
+				r.vk(ks, "comp:", "C01", "view-components", "%s's view of type %d: %s", c.Label, typ, d)
+				r.vk(ks, "comp:", "C13", "notify-missing", "%s's view of type %d: %s", c.Label, typ, d)
 			}
 		}
 		if r.m.Modules["vikja"] && v.GotVikja {
@@ -984,9 +1064,9 @@ func (r *runner) checkViews() {
 					wa[fmt.Sprintf("%d/%s", e, n)] = a
 				}
 			}
-			if d := diffMaps(ga, wa); d != "" {
-				r.v("C01", "view-actions", "%s's view of the entity actions: %s", c.Label, d)
-				r.v("C16", "joiner-state-mismatch", "%s's view of the entity actions: %s", c.Label, d)
+			if d, ks := diffMapsK(ga, wa); d != "" {
+				r.vk(ks, "action:", "C01", "view-actions", "%s's view of the entity actions: %s", c.Label, d)
+				r.vk(ks, "action:", "C16", "joiner-state-mismatch", "%s's view of the entity actions: %s", c.Label, d)
 			}
 		}
 		if r.m.Modules["odal"] && v.GotOdal {
